@@ -38,6 +38,7 @@ class PybindWrapper:
         self.use_boost_serialization = use_boost_serialization
         self.ignore_classes = ignore_classes
         self._serializing_classes = []
+        self._declared_submodules = set()
         self.module_template = module_template
         self.python_keywords = [
             'lambda', 'False', 'def', 'if', 'raise', 'None', 'del', 'import',
@@ -650,7 +651,10 @@ class PybindWrapper:
         else:
             module_var = self._gen_module_var(namespaces)
 
-            if len(namespaces) > len(self.top_module_namespaces):
+            if len(namespaces) > len(self.top_module_namespaces) \
+                    and module_var not in self._declared_submodules:
+                # a namespace that is opened again reuses its submodule
+                self._declared_submodules.add(module_var)
                 wrapped += (
                     ' ' * 4 + 'pybind11::module {module_var} = '
                     '{parent_module_var}.def_submodule("{namespace}", "'
@@ -726,6 +730,7 @@ class PybindWrapper:
         # start afresh for every file wrapped with this object.
         self.xml_parser = XMLDocParser()
 
+        self._declared_submodules = set()
         wrapped_namespace, includes = self.wrap_namespace(module)
 
         if self.use_boost_serialization:
